@@ -68,6 +68,11 @@ def run(v, O):
     return out
 '''
 STROPT_SRC = '''
+def outcome(fn):          # the whole message is kept (values with many digits make it long)
+    try:
+        return ('ok', fn())
+    except Exception as e:
+        return ('raised', type(e).__name__ + ': ' + str(e)[:400])
 def run(v, O):
     out = []
     for label, text, ok in v.cases:
@@ -241,6 +246,10 @@ def scenarios(tier, seed):
                 ('empty text against a format that needs a letter', 'a str = "abc"\n  !format "^[a-z]+$"\na = ""', False), ('empty text against a format that admits it', 'a str = "abc"\n  !format "^[a-z]*$"\na = ""', True),
                 ('empty single-quoted text against a fixed-length format', "a str = 'abc'\n  !format '^[a-z]{3}$'\na = ''", False), ('empty text against a non-empty format, two parses', ('a str = "abc"\n  !format "^.+$"', 'a = ""'), False),
                 ('empty text not among the options', 'a str = "cat"\n  !options ["cat","dog"]\na = ""', False),
+                ('options in a much smaller unit: value between two of them', 'e float = 1 J\n  = 1 J\n  = 2 eV\n  = 3 eV\ne = 2.5 eV', False), ('options in a much smaller unit: value equal to one', 'e float = 1 J\n  = 1 J\n  = 2 eV\n  = 3 eV\ne = 3 eV', True),
+                ('int node in m, option 4 nm, value 7 nm', 'n int = 4 m\n  = 4 m\n  = 4 nm\nn = 7 nm', False), ('!options list in nm on a node in m: no match', 'w float = 2 nm\n  !options [2,3] nm\nw = 2.5 nm', False),
+                ('!options list in nm on a node in m: match', 'w float = 2e-9 m\n  !options [2,3] nm\nw = 3 nm', True), ('tiny options in the node unit: no match', 'w float = 2e-9 m\n  = 2e-9 m\n  = 3e-9 m\nw = 7e-9 m', False),
+                ('condition with an equality on tiny numbers fails', 'w float = 2e-9 m\n  !condition ("{?} == 3e-9 m")', False), ('condition with an equality on tiny numbers holds', 'w float = 3 nm\n  !condition ("{?} == 3e-9 m")', True),
                 ('format digits', "a str = '2023-01-02'\n  !format '^[0-9]{4}-[0-9]{2}-[0-9]{2}$'", True), ('format digits fail', "a str = '2023-1-02'\n  !format '^[0-9]{4}-[0-9]{2}-[0-9]{2}$'", False),
                 ('value of lower rank than declared', 'c int[2,3:] = [7,8]', False), ('scalar given to an array node', 'c int[2] = 5', False),
                 ('2-D node modified with a 1-D list', 'c int[2,2] = [[1,2],[3,4]]\nc = [5,6]', False),
